@@ -754,3 +754,81 @@ def uw10(P, C):
                  (name, size, f.loc(sites[0])))
     if n == 0:
         raise core.AnalysisBroken("UW-10: no accumulated heap array found (convolve's scratch coefficients expected)")
+
+
+def uw11(P, C):
+    """UW-11: the convolved dimension gets the new knot vector, every other dimension its own old one."""
+    from . import ts as _ts
+    C.rule("UW-11", "when convolve re-populates the knot vectors, the source copied into knots[i] is the new knot field exactly for i == dim and "
+           "the saved copy of dimension i's old knots otherwise (the selecting expression is evaluated for i == dim and i != dim), and the old "
+           "knots are saved for every i != dim before they are released", floor=2)
+    fs_ = [g for g in P.fns("convolve") if g.cls == _ts.CLS and g.unit == "driver"]
+    if not fs_:
+        raise core.AnalysisBroken("UW-11: convolve not found")
+    f = fs_[0]
+    dim = f.params[0]["name"]
+    # the copy into knots[i]
+    fills = []
+    for i, cal in f.calls():
+        if cal and cal["name"] in ("copy", "copy_n", "memcpy") and f.args(i):
+            a = f.args(i)
+            dst = a[2] if cal["name"] == "copy" else (a[2] if cal["name"] == "copy_n" else a[0])
+            r = _ts.root_member(f, dst)
+            if r and r[0] == "knots" and r[1] >= 1:
+                fills.append((i, a[0] if cal["name"] != "memcpy" else a[1]))
+    ok, det = False, "no copy into knots[i] found"
+    if len(fills) == 1:
+        ci, src = fills[0]
+        L = next((x for x in f.ancestors(ci) if f.k(x) == "ForStmt"), None)
+        iv = f.nodes[f.nodes[L]["init"]]["decls"][0]["name"] if L is not None and f.k(f.nodes[L]["init"]) == "DeclStmt" else None
+        s_ = f.strip(src)
+        if f.k(s_) == "DeclRefExpr" and f.nodes[s_]["decl"].get("kind") == "Var":
+            vid = f.nodes[s_]["decl"]["id"]
+            for x in f.walk():
+                if f.k(x) == "DeclStmt":
+                    for d in f.nodes[x]["decls"]:
+                        if d.get("id") == vid and d.get("init", -1) >= 0:
+                            s_ = f.strip(d["init"])
+        # names of the two sources: the new knot field is the local that was sorted (UW-7); the saved knots are a local array of arrays
+        atoms = {}
+        for x in f.walk(s_):
+            t = core.atom_text(f, x)
+            if f.k(x) in ("CXXMemberCallExpr", "ArraySubscriptExpr", "CXXOperatorCallExpr", "DeclRefExpr") and iv and re.search(r"\[%s\]" % re.escape(iv), t) and "knots" in t and "this" not in f.render(x):
+                atoms[t] = "OLD"
+            if f.k(x) == "DeclRefExpr" and f.nodes[x]["decl"].get("kind") == "Var" and "*" in f.nodes[x].get("t", "") and f.nodes[x]["decl"]["name"] not in (iv, dim) and "store" not in f.nodes[x]["decl"]["name"]:
+                atoms[t] = "NEW"
+        res = {}
+        try:
+            for same in (True, False):
+                env = dict(atoms)
+                env[iv] = 0
+                env[dim] = 0 if same else 1
+                res[same] = core.expr_value(f, s_, env)
+            ok = res[True] == "NEW" and res[False] == "OLD"
+            det = "source for i == dim: %s, for i != dim: %s (expression `%s`)" % (res[True], res[False], f.render(s_)[:70])
+        except core.Unknown as e:
+            det = "the source copied into knots[i] cannot be evaluated over i == dim / i != dim (%s)" % e
+    C.ob("UW-11", "convolve", "new-knots-in-the-convolved-dimension-only", ok, f.loc(fills[0][0]) if fills else f.where(), det)
+    # the save loop: for i != dim the old knots are copied before the release
+    saves = []
+    for i, cal in f.calls():
+        if cal and cal["name"] in ("copy", "copy_n") and f.args(i):
+            a = f.args(i)
+            r = _ts.root_member(f, a[0])
+            if r and r[0] == "knots":
+                saves.append(i)
+    ok2, det2 = False, "the old knot vectors are not saved"
+    if len(saves) == 1:
+        sv = saves[0]
+        L = next((x for x in f.ancestors(sv) if f.k(x) == "ForStmt"), None)
+        iv = f.nodes[f.nodes[L]["init"]]["decls"][0]["name"] if L is not None and f.k(f.nodes[L]["init"]) == "DeclStmt" else None
+        try:
+            r_same = core.path_taken(f, sv, {iv: 0, dim: 0})
+            r_diff = core.path_taken(f, sv, {iv: 0, dim: 1})
+            rel = [i for i, cal in f.calls() if cal and cal["name"] == "deallocate" and _ts.root_member(f, f.args(i)[0]) and _ts.root_member(f, f.args(i)[0])[0] == "knots" and
+                   L in set(f.ancestors(i))]
+            ok2 = (not r_same) and r_diff and bool(rel) and all(f.seq(sv) < f.seq(x) for x in rel)
+            det2 = "saved for i != dim (%s), not for i == dim (%s), before the release in the same iteration (%s)" % (r_diff, not r_same, bool(rel))
+        except core.Unknown as e:
+            det2 = "the condition under which the old knots are saved cannot be evaluated (%s)" % e
+    C.ob("UW-11", "convolve", "old-knots-saved-for-the-other-dimensions", ok2, f.loc(saves[0]) if saves else f.where(), det2)
